@@ -211,10 +211,27 @@ func (st *State) Marshal(w io.Writer) error {
 }
 
 // Unmarshal reads and parses a previous dump of the state.
-// All the parsed key/values are added to the store. As of now,
-// Unmarshal does not empty the existing store from any values
-// before unmarshaling from the given reader.
+// All the parsed key/values are added to the store. Any values
+// existing in the state's namespace are removed first, so that the
+// result is exactly the unmarshaled state.
 func (st *State) Unmarshal(r io.Reader) error {
+	results, err := st.dsRead.Query(query.Query{
+		Prefix:   st.namespace.String(),
+		KeysOnly: true,
+	})
+	if err != nil {
+		return err
+	}
+	existing, err := results.Rest()
+	if err != nil {
+		return err
+	}
+	for _, e := range existing {
+		if err := st.dsWrite.Delete(ds.NewKey(e.Key)); err != nil {
+			return err
+		}
+	}
+
 	dec := codec.NewDecoder(r, st.codecHandle)
 	for {
 		var entry serialEntry
